@@ -28,7 +28,8 @@ Required == {"nt_point",          \* W z = W^-T s (= lambda)
              "lambda_inv_circ",   \* lambda o (lambda \ x) = x
              "affine_ds",         \* the affine term is lambda o lambda
              "combined_shift",    \* the corrector is W^-T ds o W dz - sigma mu e
-             "ds_offset"}         \* the slack-recovery offset is W^T (lambda \ ds)
+             "ds_offset",         \* the slack-recovery offset is W^T (lambda \ ds)
+             "identity_reset_mul_hs", "identity_reset_block"}   \* set_identity_scaling() on a scaled cone: mul_Hs and the KKT block (diagonal, dense or expanded) are the identity again
 
 Holds(e, name) == name \in DOMAIN e.ids /\ FLe(e.ids[name][1], e.ids[name][2])
 
@@ -38,6 +39,8 @@ SymConeOK(e) ==
   \* the block handed to the KKT matrix is the operator applied when recovering the slack step (cones above the
   \* sparse-expansion threshold hand over a diagonal part only: their elimination is compared under C11)
   /\ ~e.expanded => Holds(e, "block_is_mul_hs")
+  \* ... an expanded second-order cone hands over eta^2 (D + uu' - vv'): the same operator
+  /\ e.expanded => Holds(e, "expanded_block_is_mul_hs")
   \* general Jordan division by an interior element (not implemented, nor needed, for the PSD cone)
   /\ (e.y_interior /\ e.has_division) => Holds(e, "inv_circ")
 
